@@ -70,6 +70,8 @@ func (o *Obs) Describe() string {
 		return "end"
 	case OError:
 		return "error"
+	case OWait:
+		return "waiting"
 	}
 	return "diverge"
 }
@@ -149,6 +151,12 @@ func sameTags(a, b []string) bool {
 func Diff(m *Obs, r RealObs, f Flags) string {
 	if r.Panic != "" {
 		return "panic: " + r.Panic
+	}
+	if m.K == OWait {
+		if r.K == OError && r.Waiting {
+			return ""
+		}
+		return fmt.Sprintf("expected ErrWaitingForCommandCompletion, got %s", r.String())
 	}
 	if m.K != r.K {
 		return fmt.Sprintf("expected %s, got %s", m.Describe(), r.String())
